@@ -140,14 +140,13 @@ class PM:
         return node, True
 
     def find_all(self, pat: str, scope: ast.AST | None = None, commit: bool = False) -> list[ast.AST]:
+        """All matches in source order; with commit the bindings of the first one are kept."""
         pnode, is_stmt = self._parse(pat)
-        out = []
         it = body_walk(scope if scope is not None else self.fi.node) if scope is None or isinstance(scope, (ast.FunctionDef, ast.AsyncFunctionDef)) else walk_no_nested(scope)
-        for n in it:
-            if is_stmt and not isinstance(n, ast.stmt):
-                continue
-            if not is_stmt and not isinstance(n, ast.expr):
-                continue
+        cands = [n for n in it if (isinstance(n, ast.stmt) if is_stmt else isinstance(n, ast.expr))]
+        cands.sort(key=lambda n: (getattr(n, "lineno", 0), getattr(n, "col_offset", 0)))
+        out = []
+        for n in cands:
             e2 = dict(self.env)
             if self._m(pnode, n, e2):
                 out.append(n)
